@@ -473,6 +473,29 @@ impl Run {
                 }
             }
         }
+        // requests ahead of the channel state (the counter is at `target`): an enforcing signer
+        // refuses them, one running under a permissive filter answers; an answer is still a
+        // statement about the channel's keys
+        if res.is_ok() {
+            for n in [target - 1, target] {
+                match call(|| node.with_channel_base(&id0, |b| b.get_per_commitment_secret(n))) {
+                    Out::Ok(s) => {
+                        st.class("secret_ahead_of_state_answered");
+                        res = self.record(st, ctx, ci, Kind::Secret, n, s.secret_bytes().to_vec());
+                        if res.is_ok() {
+                            if let Out::Ok(p) = call(|| node.with_channel_base(&id0, |b| b.get_per_commitment_point(n))) {
+                                res = self.record(st, ctx, ci, Kind::Point, n, p.serialize().to_vec());
+                            }
+                        }
+                    }
+                    Out::Err(_) => st.class("secret_ahead_of_state_refused"),
+                    Out::Panic(_) => st.class("abort_in_secret"),
+                }
+                if res.is_err() {
+                    break;
+                }
+            }
+        }
         let _ = call(|| {
             node.with_channel(&id0, |c| {
                 c.set_next_holder_commit_num_for_testing(prev);
